@@ -3,6 +3,8 @@ mod app;
 mod drive;
 mod dsl;
 mod legacy;
+mod mt;
+mod sched;
 
 use std::io::{BufRead, BufWriter, Write};
 
@@ -33,6 +35,90 @@ fn main() {
             }
             w.flush().unwrap();
             eprintln!("ran {n} cases");
+        }
+        Some("mt") => {
+            // mt <cases.ndjson> <out.ndjson>: forced interleavings, one record per case
+            let inp = std::fs::File::open(&args[2]).expect("open cases");
+            let out = std::fs::File::create(&args[3]).expect("create out");
+            let mut w = BufWriter::new(out);
+            let mut refs: std::collections::HashMap<(String, usize), serde_json::Value> = Default::default();
+            for line in std::io::BufReader::new(inp).lines() {
+                let line = line.unwrap();
+                if line.trim().is_empty() {
+                    continue;
+                }
+                let case: mt::MtCase = serde_json::from_str(&line).expect("bad mt case");
+                let key = (case.scenario.clone(), case.threads);
+                let reference = refs
+                    .entry(key)
+                    .or_insert_with(|| mt::run_mt(&case, false)["agg"].clone())
+                    .clone();
+                let mut r = mt::run_mt(&case, true);
+                let ok = r.get("stuck").is_none() && r["agg"] == reference;
+                r["ok"] = serde_json::json!(ok);
+                if !ok {
+                    r["ref_agg"] = reference;
+                    r["case"] = serde_json::to_value(&case).unwrap();
+                }
+                serde_json::to_writer(&mut w, &r).unwrap();
+                w.write_all(b"\n").unwrap();
+            }
+            w.flush().unwrap();
+        }
+        Some("mtenum") => {
+            // mtenum <scenario> <threads> <max_preemptions> <out.ndjson> [stride]
+            let scenario = args[2].clone();
+            let k: usize = args[3].parse().unwrap();
+            let p: usize = args[4].parse().unwrap();
+            let stride: usize = args.get(6).and_then(|s| s.parse().ok()).unwrap_or(1);
+            let out = std::fs::File::create(&args[5]).expect("create out");
+            let mut w = BufWriter::new(out);
+            let base = mt::MtCase { name: "p0".into(), scenario: scenario.clone(), threads: k, sched: vec![], preempt: Some(vec![]) };
+            let reference = mt::run_mt(&base, false)["agg"].clone();
+            let r0 = mt::run_mt(&base, true);
+            let steps = r0["executed"].as_array().map(|a| a.len()).unwrap_or(0);
+            let mut total = 0u64;
+            let mut bad = 0u64;
+            let mut distinct: std::collections::HashSet<String> = Default::default();
+            // all preemption lists with at most p entries, positions increasing
+            fn rec(pos_from: usize, steps: usize, k: usize, left: usize, stride: usize, cur: &mut Vec<(usize, usize)>, f: &mut dyn FnMut(&Vec<(usize, usize)>)) {
+                f(cur);
+                if left == 0 {
+                    return;
+                }
+                let mut at = pos_from;
+                while at < steps + 40 {
+                    for to in 1..=k {
+                        cur.push((at, to));
+                        rec(at + 1, steps, k, left - 1, stride, cur, f);
+                        cur.pop();
+                    }
+                    at += stride;
+                }
+            }
+            let mut cur = vec![];
+            rec(0, steps, k, p, stride, &mut cur, &mut |pre| {
+                let case = mt::MtCase { name: format!("pre{:?}", pre), scenario: scenario.clone(), threads: k, sched: vec![], preempt: Some(pre.clone()) };
+                let mut r = mt::run_mt(&case, true);
+                total += 1;
+                distinct.insert(r["executed"].to_string());
+                let ok = r.get("stuck").is_none() && r["agg"] == reference;
+                if !ok {
+                    bad += 1;
+                    if bad <= 5 {
+                        r["ok"] = serde_json::json!(false);
+                        r["ref_agg"] = reference.clone();
+                        r["case"] = serde_json::to_value(&case).unwrap();
+                        serde_json::to_writer(&mut w, &r).unwrap();
+                        w.write_all(b"\n").unwrap();
+                    }
+                }
+            });
+            serde_json::to_writer(&mut w, &serde_json::json!({"summary":true,"scenario":scenario,"threads":k,"max_preemptions":p,
+                "base_steps":steps,"schedules":total,"distinct_interleavings":distinct.len(),"bad":bad,
+                "sample": r0["points"]})).unwrap();
+            w.write_all(b"\n").unwrap();
+            w.flush().unwrap();
         }
         _ => {
             eprintln!("usage: harness run <cases> <trace>");
